@@ -53,3 +53,274 @@ Qed.
 
 Example C08_wrap : counter_iter 3 999998%Z = 1%Z /\ counter_ok 999998%Z.
 Proof. split; [vm_compute; reflexivity | unfold counter_ok; split; discriminate]. Qed.
+
+(* ================================================================================================ *)
+(* Counter independence of reading: the result depends on the start value of the process-global      *)
+(* placeholder counter only through a consistent renaming of the placeholder ids                     *)
+(* ================================================================================================ *)
+(* The renaming (theories/Proofs/CounterBase.v, CounterLex.v, CounterParse.v, CounterProofs.v):
+     shift d i            = (i + d) mod 10^6 for six digit ids i: with d = c2 - c1 the n-th id drawn after c1 goes to the
+                            n-th id drawn after c2 (crel_next); a bijection (shift_inv), also across the wrap-around
+     rename_str d s       every occurrence of LINECOMMENT / INCLUDE / STRINGLITERAL / EXPRESSION + six digits in s gets its
+                            id shifted (BLOCKCOMMENT ids are numbered from 0 in every parse: rename_block_any)
+     rename_lexed d lx k  tokens renamed; ids of the lc / inc / expr / literal tables shifted, ids of the block comment
+                            table kept; the CONTENTS of all tables renamed (a comment text or an include name can contain
+                            placeholders of earlier stages; an expression entry stores its own placeholder name); counter k
+     rename_tree d t      keys and string leaves renamed;  rename_sd d s : data and the four tables
+   cleanb s = true: s contains none of the four renamed words followed by six digits (then rename_str d s = s). *)
+From DictIO Require Import KeyPath SDict TokParser Reader CounterBase CounterLex CounterParse CounterProofs.
+From DictIO Require E2EInsert.
+
+(* the example: two line comments, an include directive, a block comment, two string literals, a nested dict *)
+Definition c08_text : str := of_string "// first
+#include 'sub.dict'
+a 1; /* blk */ b 'lit one';
+c { d ""two""; e 2.5; } // second
+".
+Definition c08_dir : str := of_string "/d".
+Definition c08_root : str := of_string "/d/main.dict".
+Definition c08_fs : fsys := [(c08_root, FNative c08_text)].
+
+Lemma c08_ok : counter_ok (-1)%Z /\ counter_ok 123456%Z /\ counter_ok 999997%Z.
+Proof. unfold counter_ok. repeat split; discriminate. Qed.
+
+(* ---- the lexer -------------------------------------------------------------------------------------- *)
+(* side conditions: comments are kept (comments = true, the reader's default; with comments = false removing a comment can
+   glue a placeholder name together, see CounterProofs.v); the source text and the directory contain no placeholder name
+   of the four renamed families (cleanb) -- a text that spells a placeholder is the same text under both counters, but
+   the renaming would change it.  The number of ids drawn is the same under both counters. *)
+Theorem C08_lex_counter_independent : forall c1 c2 dir text,
+  counter_ok c1 -> counter_ok c2 -> cleanb text = true -> cleanb dir = true ->
+  exists n,
+    lxd_count (lex true dir c1 text) = counter_iter n c1 /\
+    lex true dir c2 text = rename_lexed (c2 - c1) (lex true dir c1 text) (counter_iter n c2) /\
+    Forall idok (lxd_lit (lex true dir c1 text)).
+Proof. exact lex_counter_independent. Qed.
+Print Assumptions C08_lex_counter_independent.
+
+(* non-vacuity: both sides computed; 123456 is a mid-range start value, 999997 makes the five ids straddle the wrap-around
+   (999998 999999 0 1 2): the renaming is the cyclic shift, nothing else changes *)
+Example C08_lex_counter_independent_nonvacuous :
+  (cleanb c08_text = true /\ cleanb c08_dir = true) /\
+  (exists n, lxd_count (lex true c08_dir (-1) c08_text) = counter_iter n (-1)%Z /\
+             lex true c08_dir 123456 c08_text = rename_lexed (123456 - -1) (lex true c08_dir (-1) c08_text) (counter_iter n 123456%Z) /\
+             Forall idok (lxd_lit (lex true c08_dir (-1) c08_text))) /\
+  (exists n, lxd_count (lex true c08_dir (-1) c08_text) = counter_iter n (-1)%Z /\
+             lex true c08_dir 999997 c08_text = rename_lexed (999997 - -1) (lex true c08_dir (-1) c08_text) (counter_iter n 999997%Z) /\
+             Forall idok (lxd_lit (lex true c08_dir (-1) c08_text))) /\
+  lxd_count (lex true c08_dir (-1) c08_text) = counter_iter 5 (-1)%Z /\
+  lex true c08_dir 999997 c08_text = rename_lexed (999997 - -1) (lex true c08_dir (-1) c08_text) (counter_iter 5 999997%Z) /\
+  (map fst (lxd_lc (lex true c08_dir (-1) c08_text)), map fst (lxd_inc (lex true c08_dir (-1) c08_text)),
+   map fst (lxd_lit (lex true c08_dir (-1) c08_text)), map fst (lxd_bc (lex true c08_dir (-1) c08_text))) = ([0; 1], [2], [3; 4], [0])%N /\
+  (map fst (lxd_lc (lex true c08_dir 999997 c08_text)), map fst (lxd_inc (lex true c08_dir 999997 c08_text)),
+   map fst (lxd_lit (lex true c08_dir 999997 c08_text)), map fst (lxd_bc (lex true c08_dir 999997 c08_text))) = ([999998; 999999], [0], [1; 2], [0])%N /\
+  lxd_count (lex true c08_dir 999997 c08_text) = 2%Z /\
+  List.length (lxd_tokens (lex true c08_dir (-1) c08_text)) = 19%nat.
+Proof.
+  destruct c08_ok as (H1 & H2 & H3).
+  assert (Hc : cleanb c08_text = true /\ cleanb c08_dir = true) by (split; vm_compute; reflexivity).
+  refine (conj Hc (conj (C08_lex_counter_independent _ _ _ _ H1 H2 (proj1 Hc) (proj2 Hc))
+                  (conj (C08_lex_counter_independent _ _ _ _ H1 H3 (proj1 Hc) (proj2 Hc)) _))).
+  repeat split; vm_compute; reflexivity.
+Qed.
+
+(* the CONTENTS of table entries are renamed too, they are not identical: a comment swallowed by a later stage leaves its
+   placeholder in the text of the block comment / include directive / string literal that contains it *)
+Example C08_table_contents_are_renamed :
+  let t := of_string "/* a // b
+ */ x 1;" in
+  cleanb t = true /\
+  map snd (lxd_bc (lex true c08_dir (-1) t)) = [of_string "/* a LINECOMMENT000000
+ */"] /\
+  map snd (lxd_bc (lex true c08_dir 5 t)) = [of_string "/* a LINECOMMENT000006
+ */"] /\
+  lex true c08_dir 5 t = rename_lexed (5 - -1) (lex true c08_dir (-1) t) 6%Z.
+Proof. repeat split; vm_compute; reflexivity. Qed.
+
+(* ---- parse_string ----------------------------------------------------------------------------------- *)
+(* further side condition parse_side, a boolean on the first run that is invariant under the renaming (parse_side_R):
+   (1) keys_okt: in every comment / include placeholder key the FIRST run of six digits (that is what SDict._clean reads
+       as the id) is the id of a placeholder of the right family.  Needed: for the text "123456//k" + newline + "//k" the
+       result under counter 123454 has one comment key and one line-comment entry, under counter -1 two and two
+       (C08_counter_dependence_finding below): the key 123456LINECOMMENT... is looked up under id 123456, which is a
+       drawn id under one counter and not under the other.  A defect of the modelled library (key_id = first six digits).
+   (2) lits_own_ok: no string literal evaluates to a text containing its OWN placeholder -- the condition under which
+       _insert_string_literals terminates (ParserFuelProofs.literal_ok).
+   One run raises iff the other does, with the same error (map_res) -- also the RecursionError of set_global_key for a
+   string literal more than ten keys deep, whatever the order in which find_global_key visits the leaves
+   (CounterInsert.insert_literal_full; the sort order of placeholder keys does change across the wrap-around). *)
+Theorem C08_parse_counter_independent : forall c1 c2 dir text,
+  counter_ok c1 -> counter_ok c2 -> cleanb text = true -> cleanb dir = true ->
+  parse_side (lex true dir c1 text) = true ->
+  exists n,
+    lxd_count (lex true dir c1 text) = counter_iter n c1 /\
+    parse_string true dir c2 text =
+    map_res (rename_parsed (c2 - c1) (counter_iter n c2)) (parse_string true dir c1 text).
+Proof. exact parse_counter_independent. Qed.
+Print Assumptions C08_parse_counter_independent.
+
+Example C08_parse_counter_independent_nonvacuous :
+  parse_side (lex true c08_dir (-1) c08_text) = true /\
+  (exists n, lxd_count (lex true c08_dir (-1) c08_text) = counter_iter n (-1)%Z /\
+             parse_string true c08_dir 123456 c08_text =
+             map_res (rename_parsed (123456 - -1) (counter_iter n 123456%Z)) (parse_string true c08_dir (-1) c08_text)) /\
+  (exists n, lxd_count (lex true c08_dir (-1) c08_text) = counter_iter n (-1)%Z /\
+             parse_string true c08_dir 999997 c08_text =
+             map_res (rename_parsed (999997 - -1) (counter_iter n 999997%Z)) (parse_string true c08_dir (-1) c08_text)) /\
+  parse_string true c08_dir 999997 c08_text =
+    map_res (rename_parsed (999997 - -1) 2%Z) (parse_string true c08_dir (-1) c08_text) /\
+  (match parse_string true c08_dir 999997 c08_text with
+   | Ok p => (List.length (sd_data (pr_sd p)), map fst (sd_lc (pr_sd p)), map fst (sd_inc (pr_sd p)), pr_count p)
+   | Raise _ => (O, [], [], 0%Z)
+   end) = (7%nat, [999998; 999999]%N, [0]%N, 2%Z).
+Proof.
+  destruct c08_ok as (H1 & H2 & H3).
+  assert (Hc : cleanb c08_text = true /\ cleanb c08_dir = true) by (split; vm_compute; reflexivity).
+  assert (Hs : parse_side (lex true c08_dir (-1) c08_text) = true) by (vm_compute; reflexivity).
+  refine (conj Hs (conj (C08_parse_counter_independent _ _ _ _ H1 H2 (proj1 Hc) (proj2 Hc) Hs)
+                  (conj (C08_parse_counter_independent _ _ _ _ H1 H3 (proj1 Hc) (proj2 Hc) Hs) _))).
+  split; vm_compute; reflexivity.
+Qed.
+
+(* a string literal twelve keys deep: RecursionError under every counter *)
+Example C08_parse_counter_independent_raise :
+  let t := of_string "a{b{c{d{e{f{g{h{i{j{k{l 'x';}}}}}}}}}}}" in
+  cleanb t = true /\ parse_side (lex true c08_dir (-1) t) = true /\
+  parse_string true c08_dir (-1) t = Raise E_Recursion /\ parse_string true c08_dir 999999 t = Raise E_Recursion /\
+  (exists n, lxd_count (lex true c08_dir (-1) t) = counter_iter n (-1)%Z /\
+             parse_string true c08_dir 999999 t = map_res (rename_parsed (999999 - -1) (counter_iter n 999999%Z)) (parse_string true c08_dir (-1) t)).
+Proof.
+  cbv zeta. assert (Hc : cleanb (of_string "a{b{c{d{e{f{g{h{i{j{k{l 'x';}}}}}}}}}}}") = true) by (vm_compute; reflexivity).
+  assert (Hs : parse_side (lex true c08_dir (-1) (of_string "a{b{c{d{e{f{g{h{i{j{k{l 'x';}}}}}}}}}}}")) = true) by (vm_compute; reflexivity).
+  split; [exact Hc|]. split; [exact Hs|]. split; [vm_compute; reflexivity|]. split; [vm_compute; reflexivity|].
+  apply C08_parse_counter_independent; try assumption; try (unfold counter_ok; split; discriminate); vm_compute; reflexivity.
+Qed.
+
+(* the ordinary data -- entries whose key is no placeholder and whose value is no text with a placeholder in it, at every
+   depth -- are literally equal *)
+Theorem C08_ordinary_data_equal : forall d data,
+  ordinary_part (Dict (rename_kvs d data)) = ordinary_part (Dict data).
+Proof. exact ordinary_data_equal. Qed.
+Print Assumptions C08_ordinary_data_equal.
+
+Example C08_ordinary_data_equal_nonvacuous :
+  let d1 := match parse_string true c08_dir (-1) c08_text with Ok p => sd_data (pr_sd p) | Raise _ => [] end in
+  let d2 := match parse_string true c08_dir 999997 c08_text with Ok p => sd_data (pr_sd p) | Raise _ => [] end in
+  let o := Dict [(KS (of_string "a"), Leaf (SInt 1));
+                 (KS (of_string "BLOCKCOMMENT000000"), Leaf (SStr (of_string "BLOCKCOMMENT000000")));  (* numbered from 0 in every parse *)
+                 (KS (of_string "b"), Leaf (SStr (of_string "lit one")));
+                 (KS (of_string "c"), Dict [(KS (of_string "d"), Leaf (SStr (of_string "two")));
+                                            (KS (of_string "e"), Leaf (SFloat (of_string "2.5")))])] in
+  d2 = rename_kvs (999997 - -1) d1 /\
+  ordinary_part (Dict (rename_kvs (999997 - -1) d1)) = ordinary_part (Dict d1) /\
+  ordinary_part (Dict d1) = o /\ ordinary_part (Dict d2) = o /\ List.length d1 = 7%nat /\ d1 <> d2.
+Proof.
+  cbv zeta. split; [vm_compute; reflexivity|]. split; [apply C08_ordinary_data_equal|].
+  split; [vm_compute; reflexivity|]. split; [vm_compute; reflexivity|]. split; [vm_compute; reflexivity|]. vm_compute. discriminate.
+Qed.
+
+(* ---- reading a file (no include merging) -------------------------------------------------------------- *)
+Theorem C08_read_counter_independent : forall fs root text c1 c2,
+  counter_ok c1 -> counter_ok c2 ->
+  fs_lookup (norm_path root) fs = Some (FNative text) ->
+  cleanb text = true -> cleanb (dir_of root) = true ->
+  parse_side (lex true (dir_of root) c1 text) = true ->
+  exists n,
+    lxd_count (lex true (dir_of root) c1 text) = counter_iter n c1 /\
+    read_plain fs root false true c2 = map_res (rename_read (c2 - c1) (counter_iter n c2)) (read_plain fs root false true c1).
+Proof. exact read_counter_independent_noinc. Qed.
+Print Assumptions C08_read_counter_independent.
+
+Example C08_read_counter_independent_nonvacuous :
+  fs_lookup (norm_path c08_root) c08_fs = Some (FNative c08_text) /\
+  cleanb (dir_of c08_root) = true /\ parse_side (lex true (dir_of c08_root) (-1) c08_text) = true /\
+  (exists n, lxd_count (lex true (dir_of c08_root) (-1) c08_text) = counter_iter n (-1)%Z /\
+             read_plain c08_fs c08_root false true 999997 =
+             map_res (rename_read (999997 - -1) (counter_iter n 999997%Z)) (read_plain c08_fs c08_root false true (-1))) /\
+  read_plain c08_fs c08_root false true 999997 = map_res (rename_read (999997 - -1) 2%Z) (read_plain c08_fs c08_root false true (-1)) /\
+  read_plain c08_fs c08_root false true 123456 = map_res (rename_read (123456 - -1) 123461%Z) (read_plain c08_fs c08_root false true (-1)) /\
+  (match read_plain c08_fs c08_root false true 999997 with Ok (s, c) => (List.length (sd_data s), c) | Raise _ => (O, 0%Z) end) = (6%nat, 2%Z).
+Proof.
+  destruct c08_ok as (H1 & H2 & H3).
+  assert (Hf : fs_lookup (norm_path c08_root) c08_fs = Some (FNative c08_text)) by (vm_compute; reflexivity).
+  assert (Hd : cleanb (dir_of c08_root) = true) by (vm_compute; reflexivity).
+  assert (Ht : cleanb c08_text = true) by (vm_compute; reflexivity).
+  assert (Hs : parse_side (lex true (dir_of c08_root) (-1) c08_text) = true) by (vm_compute; reflexivity).
+  refine (conj Hf (conj Hd (conj Hs (conj (C08_read_counter_independent _ _ _ _ _ H1 H3 Hf Ht Hd Hs) _)))).
+  repeat split; vm_compute; reflexivity.
+Qed.
+
+(* ---- reading with include merging ------------------------------------------------------------------------ *)
+(* side conditions (CounterRead.v): every file of the file system is native, free of placeholder names and of references
+   and satisfies the parser's side condition (file_ok, checked at the fresh counter -1; file_ok_any transports it to every
+   counter); the normalised paths that key the file system and the spelling of the root path contain no placeholder names.
+   One read raises iff the other does; the number of ids drawn in the whole read is the same. *)
+From DictIO Require Import CounterRead.
+Theorem C08_read_includes_counter_independent : forall fs root c1 c2,
+  counter_ok c1 -> counter_ok c2 -> fs_ok fs = true -> cleanb root = true ->
+  exists n,
+    read_plain fs root true true c2 = map_res (rename_read (c2 - c1) (counter_iter n c2)) (read_plain fs root true true c1) /\
+    (forall s k, read_plain fs root true true c1 = Ok (s, k) -> k = counter_iter n c1).
+Proof. exact read_counter_independent_inc. Qed.
+Print Assumptions C08_read_includes_counter_independent.
+
+Definition c08_sub : str := of_string "x 'inner'; // sub comment
+y { z 3; }
+".
+Definition c08_fs2 : fsys := [(c08_root, FNative c08_text); (of_string "/d/sub.dict", FNative c08_sub)].
+
+(* the included file draws two more ids (a line comment and a string literal): eight in all; started at 999997 they are
+   999998 999999 0 1 2 (main file) and 3 4 (included file), started at -1 they are 0 .. 6 *)
+Example C08_read_includes_counter_independent_nonvacuous :
+  fs_ok c08_fs2 = true /\ cleanb c08_root = true /\
+  (exists n, read_plain c08_fs2 c08_root true true 999997 =
+             map_res (rename_read (999997 - -1) (counter_iter n 999997%Z)) (read_plain c08_fs2 c08_root true true (-1)) /\
+             (forall s k, read_plain c08_fs2 c08_root true true (-1) = Ok (s, k) -> k = counter_iter n (-1)%Z)) /\
+  read_plain c08_fs2 c08_root true true 999997 = map_res (rename_read (999997 - -1) 4%Z) (read_plain c08_fs2 c08_root true true (-1)) /\
+  read_plain c08_fs2 c08_root true true 123456 = map_res (rename_read (123456 - -1) 123463%Z) (read_plain c08_fs2 c08_root true true (-1)) /\
+  (match read_plain c08_fs2 c08_root true true 999997 with
+   | Ok (s, c) => (List.length (sd_data s), map fst (sd_lc s), map fst (sd_inc s), c)
+   | Raise _ => (O, [], [], 0%Z)
+   end) = (10%nat, [999998; 999999; 3]%N, [0]%N, 4%Z) /\
+  (match read_plain c08_fs2 c08_root true true (-1) with
+   | Ok (s, c) => (List.length (sd_data s), map fst (sd_lc s), map fst (sd_inc s), c)
+   | Raise _ => (O, [], [], 0%Z)
+   end) = (10%nat, [0; 1; 5]%N, [2]%N, 6%Z).
+Proof.
+  destruct c08_ok as (H1 & H2 & H3).
+  assert (Hf : fs_ok c08_fs2 = true) by (vm_compute; reflexivity).
+  assert (Hr : cleanb c08_root = true) by (vm_compute; reflexivity).
+  refine (conj Hf (conj Hr (conj (C08_read_includes_counter_independent _ _ _ _ H1 H3 Hf Hr) _))).
+  repeat split; vm_compute; reflexivity.
+Qed.
+
+(* ---- findings: where the result DOES depend on the counter beyond renaming (excluded by the side conditions) ------- *)
+Definition c08_shape (r : res parsed) : nat * list N * list N :=
+  match r with Ok p => (List.length (sd_data (pr_sd p)), map fst (sd_lc (pr_sd p)), map fst (sd_bc (pr_sd p))) | Raise _ => (O, [], []) end.
+(* (1) SDict._clean takes the first six digits of a key for its id: a number glued to a comment is looked up as an id *)
+Example C08_counter_dependence_finding :
+  let t := of_string "123456//k
+//k" in
+  cleanb t = true /\ parse_side (lex true c08_dir (-1) t) = false /\
+  c08_shape (parse_string true c08_dir (-1) t) = (2%nat, [0; 1]%N, []) /\
+  c08_shape (parse_string true c08_dir 123454 t) = (1%nat, [123455]%N, []).
+Proof. repeat split; vm_compute; reflexivity. Qed.
+(* (1') the same with a string literal glued to a block comment (block comment ids are not drawn from the counter) *)
+Example C08_counter_dependence_finding_block :
+  let t := of_string "'a'/*c*/ /*c*/" in
+  cleanb t = true /\ parse_side (lex true c08_dir 0 t) = false /\
+  c08_shape (parse_string true c08_dir 0 t) = (1%nat, [], [1]%N) /\
+  c08_shape (parse_string true c08_dir 4 t) = (2%nat, [], [0; 1]%N).
+Proof. repeat split; vm_compute; reflexivity. Qed.
+(* (2) comments = false: removing a comment can spell a placeholder name (the source itself contains none), which _clean
+   then looks up under ids that are drawn under one counter and not under the other *)
+Example C08_counter_dependence_finding_nocomments :
+  let t := of_string "LINECOMMENT/**/000000 LINECOMMENT/**/000001 //x
+//x
+" in
+  cleanb t = true /\
+  lxd_tokens (lex false c08_dir (-1) (of_string "LINECOMMENT/**/000001 1;")) =
+  lxd_tokens (lex false c08_dir 5 (of_string "LINECOMMENT/**/000001 1;")) /\
+  c08_shape (parse_string false c08_dir (-1) t) = (1%nat, [0]%N, [0; 1]%N) /\
+  c08_shape (parse_string false c08_dir 10 t) = (2%nat, [11; 12]%N, [0; 1]%N).
+Proof. repeat split; vm_compute; reflexivity. Qed.
